@@ -230,6 +230,20 @@ CHECKS = {
         note="Trusted: the driver's dump of positions maps and callbacks; full maps judged up to 400 letters, longer "
              "sequences on sampled words and ranges.",
         ref="DESIGN.md §6 C10"),
+    "C14": dict(
+        technique="TLA+ transcription of the tube machine checked by TLC against declarative epsilon-matches on all tiny "
+                  "inputs (as-found retirement refuted); real filter runs judged by TLC for coverage, hit lists compared "
+                  "with the model's",
+        text="QGram.tla defines epsilon-matches and coverage declaratively and transcribes filter.go's tube machine "
+             "(circular tube list, ticker, tubeEnd, final flush); TLC checks completeness for every target <= 5 and query "
+             "<= 8 (10 thorough; 7x7 thorough) over two letters, k=2, n in {4,5}, e in {0,1}, offsets 1..6, self and "
+             "non-self, and refutes the as-found retirement. The real filter (MinKmerLen lowered to 2) runs on thousands "
+             "of small inputs - TLC enumerates their epsilon-matches and compares the real hit list with the model's - and "
+             "on random / repeat-planted pairs up to 300-400 letters, k 4..7, n 12..41, e 0..3, where every epsilon-match "
+             "found by a scan and re-checked by TLC must be covered by a hit.",
+        note="Trusted: the harness scan that proposes epsilon-matches for large inputs (each is re-checked; a missed "
+             "candidate would weaken, not falsify, the verdict). Sequences over A,C,G,T only.",
+        ref="DESIGN.md §6 C14"),
 }
 
 NOT_YET = {}
